@@ -298,7 +298,20 @@ let run_push () =
       | OpCreate (p, ex) -> (if ex then "T:" else "C:") ^ path p
       | OpMkdir p -> "M:" ^ path p
       | OpRmdir p -> "R:" ^ path p) fs'.fs_log) in
-  let trace = " || OPS " ^ ops ^ (if fs'.fs_fired then " || FIRED" else "") in
+  (* HardLinks.v run on the log: the files of the start tree get the inode numbers 0, 1, ...; after irun a name
+     is bound to its old number (S), to a fresh one (N) or to none (G); nrun says whether the log is truthful *)
+  let n_of k = n_of_int k in
+  let names0 = List.mapi (fun k (p, _) -> (p, n_of k)) files in
+  let dummy = { i_data = []; i_mode = n_of 0 } in
+  let s0 = { i_names = names0; i_node = (fun _ -> dummy); i_next = n_of (List.length files) } in
+  let s1 = irun s0 fs'.fs_log (fun _ -> dummy) in
+  let path0 p = if p = [] then "-" else String.concat "/" (List.map hexb p) in
+  let inodes = String.concat "," (List.map (fun (p, k) ->
+      path0 p ^ ":" ^ (match ilookup p s1.i_names with
+                       | None -> "G"
+                       | Some j -> if j = k then "S" else "N")) names0) in
+  let truthful = (match nrun (List.map fst files) fs'.fs_log with Some _ -> "TRUTHFUL" | None -> "UNTRUTHFUL") in
+  let trace = " || OPS " ^ ops ^ (if fs'.fs_fired then " || FIRED" else "") ^ " || INODES " ^ inodes ^ " || " ^ truthful in
   match r with
   | ROk ok -> Printf.sprintf "EXIT %d | %s%s" (if ok then 0 else 1) (show_fs fs') trace
   | RErr e -> Printf.sprintf "EXIT 1 ERR %s | %s%s" (rerr_name e) (show_fs fs') trace
